@@ -138,3 +138,55 @@ Definition exec (strict : bool) (t : table) (s : stmt) : res (table * Z) :=
 Definition step (strict : bool) (t : table) (s : stmt) : table :=
   match exec strict t s with Ok (t', _) => t' | Err _ => t end.
 Definition run_history (strict : bool) (t : table) (ss : list stmt) : table := fold_left (step strict) ss t.
+
+(* ---- multi-table forms over two joined tables p and c ------------------------------------------- *)
+(* the joined rows p_i ++ c_j (nested-loop order) on which the ON condition and the WHERE condition are
+   TRUE, as index pairs *)
+Definition cond_true (c : option expr) (r : row) : res bool :=
+  match c with None => Ok true | Some e => do v <- eval r e; Ok (is_true v) end.
+
+Fixpoint hits_row (on wh : option expr) (i : nat) (p : row) (cs : list row) (j : nat) : res (list (nat * nat)) :=
+  match cs with
+  | [] => Ok []
+  | c :: cs' =>
+      do a <- cond_true on (p ++ c);
+      (* WHERE is evaluated on the rows the join kept *)
+      do b <- (if a then cond_true wh (p ++ c) else Ok false);
+      do rest <- hits_row on wh i p cs' (S j);
+      Ok (if a && b then (i, j) :: rest else rest)
+  end.
+Fixpoint hits_from (on wh : option expr) (ps cs : list row) (i : nat) : res (list (nat * nat)) :=
+  match ps with
+  | [] => Ok []
+  | p :: ps' => do a <- hits_row on wh i p cs 0; do b <- hits_from on wh ps' cs (S i); Ok (a ++ b)
+  end.
+Definition join_hits (on wh : option expr) (ps cs : list row) : res (list (nat * nat)) := hits_from on wh ps cs 0.
+
+Definition remove_idx (idxs : list nat) (rows : list row) : list row :=
+  map snd (filter (fun ir => negb (existsb (Nat.eqb (fst ir)) idxs)) (combine (seq 0 (length rows)) rows)).
+
+(* DELETE [p][, c] FROM p JOIN c ON on [WHERE wh]: every row of a target table that takes part in a
+   kept joined row is removed; the count of a table is the number of its rows removed *)
+Definition delete_join (tp tc : bool) (on wh : option expr) (ps cs : list row) : res ((list row * Z) * (list row * Z)) :=
+  do hs <- join_hits on wh ps cs;
+  let pi := nodup_nat (map fst hs) in
+  let ci := nodup_nat (map snd hs) in
+  Ok ((if tp then (remove_idx pi ps, Z.of_nat (length pi)) else (ps, 0)),
+      (if tc then (remove_idx ci cs, Z.of_nat (length ci)) else (cs, 0))).
+
+(* UPDATE p SET .. FROM p JOIN c ON on [WHERE wh]: the SET expressions see the joined row as it was
+   before the statement; a row of p that two kept joined rows would update is an error
+   (the same cell set twice) *)
+Fixpoint update_join_loop (sets : list (nat * expr)) (ps cs : list row) (hs : list (nat * nat)) (done : list nat) (acc : list row) : res (list row * Z) :=
+  match hs with
+  | [] => Ok (acc, Z.of_nat (length done))
+  | (i, j) :: hs' =>
+      do r' <- update_row sets (nth i ps [] ++ nth j cs []);
+      if existsb (Nat.eqb i) done then Err (EOther 3) else
+      (* only p's columns are written back *)
+      let w := length (nth i ps []) in
+      update_join_loop sets ps cs hs' (i :: done) (set_nth i (firstn w r') acc)
+  end.
+Definition update_join (sets : list (nat * expr)) (on wh : option expr) (ps cs : list row) : res (list row * Z) :=
+  do hs <- join_hits on wh ps cs;
+  update_join_loop sets ps cs hs [] ps.
